@@ -11,7 +11,7 @@ RULE = ('genomes of 1..4 chromosomes (size 1..7); leaf arrays from bedGraphs (ev
         'of <= 3 records on one chromosome of size <= 5 (quick: 4)), from interval sets (get_mask, get_pileup; '
         'unsorted, overlapping, touching across a chromosome boundary; structured family: duplicated rows, nested, zero-length, equal starts / stops, whole chromosome, a middle chromosome without rows) and from GenomicRunLengthArray.from_intervals '
         '(scalar / per-interval values, default value); bedGraphs whose neighbouring runs are np.isclose-equal but different (250 | 250+2^-10, 2^-40 next to 0, 2000000 | 2000001); interval sets of 2^15+1 / 2^16+1 rows (thorough: 2^16-1, 2^16, 100000, 2^17+1) on a tiny genome through get_pileup / get_mask, sent to Coq as (interval, multiplicity); well-typed expression trees over {+,-,*,<,>,==,&,|,~} with '
-        'array and Python-scalar operands up to depth 3; np.sum / .sum() (positional, keyword and method forms of axis=None) and np.histogram of the result in every calling convention (bins int or explicit edges x positional / keyword, range positional / keyword / absent, default call), counts and edges compared.  non-trivial = some leaf has '
+        'array and Python-scalar operands up to depth 3; np.sum / .sum() (positional, keyword and method forms of axis=None) and np.histogram of the result in every calling convention (bins int or explicit edges x positional / keyword, range positional / keyword / absent, default call), counts and edges compared.  STATE: every genomic-array object (each leaf, the result) is observed again after the caller edited IN PLACE every array earlier observations handed out (to_dict() arrays, get_data() columns, track[name] / track[intervals] expansions, ufunc results, histogram outputs; edits: += 1, blank, sort, clip, scale, flip for bool): each leaf twice more through one route, the result three times (routes A, B, A), routes = to_dict() / the second of two to_dict() results / track[name].to_array() / track[whole-chromosome intervals] / (track + 0 | track & True).to_dict() / str = np.asarray parsed (bool, int), always with a fresh get_data(), then np.sum and np.histogram again; every repeat must again be the lossless view of the dense array the records describe (routes and edits cycled over the cases).  non-trivial = some leaf has '
         'a record, and the case has two or more chromosomes or an operator')
 EXHAUSTIVE = {'quick': False, 'thorough': False}
 TIE = ('translator+correspondence: Gen/C09.v regenerated from /repo (from_bedgraph, from_intervals, to_array, slice bounds, offsets) bridged to the named formulas of Model/C09.v (C09_source_tie); get_pileup empty-set test / result / hand-over skeleton bridged to Model/C09_pileup.v (C09_pileup_source_tie); '
@@ -408,7 +408,7 @@ def mk(sizes, leaves, expr, edges=None, names=0):
     rg = HIST_RANGES[(j // len(HIST_STYLES)) % len(HIST_RANGES)]
     return dict(sizes=list(sizes), leaves=leaves, expr=expr, edges=[V(x) for x in (edges or EDGES[0])], names=names,
                 hist=dict(style=HIST_STYLES[j % len(HIST_STYLES)], bins=HIST_NBINS[(j // 3) % len(HIST_NBINS)], range=[V(rg[0]), V(rg[1])]),
-                sum_style=SUM_STYLES[j % len(SUM_STYLES)])
+                sum_style=SUM_STYLES[j % len(SUM_STYLES)], rep=j)
 
 
 def hist_call(np, x, case):
@@ -585,13 +585,132 @@ def _kind_of(dtype):
     return 'b' if k == 'b' else ('i' if k in 'iu' else ('f' if k == 'f' else '?'))
 
 
-def _observe_array(np, x, names):
+def _rows_of_data(np, data, names, handed=None):
+    chrom = data.chromosome.tolist()
+    starts, stops = data.start.tolist(), data.stop.tolist()
+    if hasattr(data, 'value'):
+        vals = _arr_vals(np.asarray(data.value))
+    else:
+        vals = [[1, 0]] * len(chrom)
+    if handed is not None:
+        handed.extend([data.start, data.stop] + ([data.value] if hasattr(data, 'value') else []))
+    return [[names.index(str(c)), int(s), int(e), v] for c, s, e, v in zip(chrom, starts, stops, vals)]
+
+
+# ---- repeated observation of ONE genomic-array object with caller-side in-place edits of earlier results in between ----
+REP_ROUTES = ['to_dict', 'sibling', 'chrom', 'intervals', 'ufunc', 'str']
+REP_EDITS = ['add', 'blank', 'sort', 'clip', 'scale']
+
+
+def _edit_in_place(np, handed, how):
+    """what a caller may do to arrays it was handed (its own copies): pseudo count, clip, sort, blank, normalise, flip.
+    Every writable array is really changed (if the chosen edit is a no-op on it, one is added / it is flipped)."""
+    for a in handed:
+        if not isinstance(a, np.ndarray) or a.size == 0 or not a.flags.writeable:
+            continue
+        before = a.copy()
+        try:
+            if a.dtype == bool:
+                if how in ('blank', 'clip'):
+                    a[:] = False
+                elif how == 'sort':
+                    a.sort()
+                else:
+                    a[:] = ~a
+            elif how == 'add':
+                a += 1
+            elif how == 'blank':
+                a[:] = 0
+            elif how == 'sort':
+                a.sort()
+            elif how == 'clip':
+                np.clip(a, 0, 1, out=a)
+            else:
+                a *= 3
+            if np.array_equal(a, before):
+                if a.dtype == bool:
+                    a[:] = ~a
+                else:
+                    a += 1
+        except Exception:
+            pass
+
+
+def _parse_str(np, text, names, kind):
+    """str(track) / np.asarray(track): one line 'name: [v v v]' per chromosome (exact for bool / int arrays)"""
+    lines = text.split('\n')
+    if len(lines) != len(names):
+        raise ValueError('str: %d lines for %d chromosomes' % (len(lines), len(names)))
+    out = []
+    for n, ln in zip(names, lines):
+        head, _, body = ln.partition(': ')
+        if head != n or not (body.startswith('[') and body.endswith(']')):
+            raise ValueError('str: unexpected line %r' % ln)
+        toks = body[1:-1].split()
+        if kind == 'b':
+            out.append(np.array([{'True': True, 'False': False}[t] for t in toks], dtype=bool))
+        else:
+            out.append(np.array([int(t) for t in toks], dtype=np.int64))
+    return out
+
+
+def _rep_round(np, bnp, g, x, names, sizes, route, how, handed):
+    """one more observation of x through `route`, after everything handed out before was edited in place (`how`);
+    each observation must be re-derived from the records: same dense arrays, same get_data() rows."""
+    from bionumpy.datatypes import Interval
+    try:
+        pending = None
+        if route == 'sibling':           # two conversions; the first is edited, the second is read afterwards
+            first, pending = x.to_dict(), x.to_dict()
+            handed.extend(first[n] for n in names)
+        _edit_in_place(np, handed, how)
+        kind = _kind_of(x.dtype)
+        if route == 'str' and kind not in 'bi':
+            route = 'chrom'
+        src = x
+        if route == 'to_dict':
+            d = x.to_dict()
+            arrs = [d[n] for n in names]
+        elif route == 'sibling':
+            arrs = [pending[n] for n in names]
+        elif route == 'chrom':
+            arrs = [x[n].to_array() for n in names]
+        elif route == 'intervals':
+            iv = g.get_intervals(Interval(list(names), [0] * len(names), list(sizes)))
+            r = x[iv]
+            arrs = [np.asarray(r[i].to_array()) for i in range(len(names))]
+        elif route == 'ufunc':
+            src = (x & True) if kind == 'b' else (x + 0)
+            d = src.to_dict()
+            arrs = [d[n] for n in names]
+            kind = _kind_of(src.dtype)
+        else:
+            t1, t2 = str(x), str(np.asarray(x))
+            if t1 != t2:
+                raise ValueError('str(x) != str(np.asarray(x))')
+            arrs = _parse_str(np, t1, names, kind)
+        arrs = [np.asarray(a) for a in arrs]
+        if any(_kind_of(a.dtype) != kind for a in arrs):
+            return dict(ok=False, err='%s: dtype of the per-chromosome arrays %r, of the track %s' % (route, [str(a.dtype) for a in arrs], kind))
+        dense = [_arr_vals(a) for a in arrs]
+        rows = _rows_of_data(np, src.get_data(), names, handed)
+        handed.extend(arrs)
+        return dict(ok=True, kind=kind, dense=dense, data=rows, route=route, edit=how)
+    except Exception as e:
+        return dict(ok=False, err='%s after %s: %s: %s' % (route, how, type(e).__name__, str(e)[:100]), route=route, edit=how)
+
+
+def _observe_array(np, x, names, handed=None):
     d = x.to_dict()
     if list(d.keys()) != names:
         return dict(ok=False, err='to_dict keys %r' % (list(d.keys()),))
     dense = [_arr_vals(np.asarray(d[n])) for n in names]
+    if handed is not None:
+        handed.extend(d[n] for n in names)
     kind = _kind_of(x.dtype)
     data = x.get_data()
+    if handed is not None:
+        handed.extend([data.start, data.stop] + ([data.value] if hasattr(data, 'value') else []))
     chrom = data.chromosome.tolist()
     starts, stops = data.start.tolist(), data.stop.tolist()
     rows = []
@@ -615,6 +734,8 @@ def observe(case):
     g = bnp.Genome.from_dict(dict(zip(names, sizes)))
     tot = sum(sizes)
     arrays, lobs = [], []
+    handed = []          # every array an earlier observation handed to the caller (edited in place before each repeat)
+    rep = case.get('rep', 0)
     for l in case['leaves']:
         k = leaf_kind(l)
         dt = {'b': bool, 'i': np.int64, 'f': np.float64}[k]
@@ -636,7 +757,7 @@ def observe(case):
                     values = np.array([unV(r[3], k) for r in l['recs']], dtype=dt)
                 rle = GenomicRunLengthArray.from_intervals(starts, ends, tot, values=values, default_value=unV(l['default'], k))
                 x = GenomicArray.from_global_data(rle, g.get_genome_context())
-            o = _observe_array(np, x, names)
+            o = _observe_array(np, x, names, handed)
         except Exception as e:
             x, o = None, dict(ok=False, err='%s: %s' % (type(e).__name__, str(e)[:100]))
         arrays.append(x)
@@ -651,21 +772,44 @@ def observe(case):
     if any(a is None for a in arrays):
         out['res'] = dict(ok=False, err='leaf failed')
         return out
-    try:
-        r = apply_expr(case['expr'], arrays)
-        o = _observe_array(np, r, names)
-        o['sum'] = V(sum_call(np, r, case).item())
+    def sum_hist(o, r, sfx):
+        o['sum' + sfx] = V(sum_call(np, r, case).item())
         hr = hist_call(np, r, case)
         h = hr[0]
-        o['hist'] = [int(c) for c in np.asarray(h).tolist()]
+        o['hist' + sfx] = [int(c) for c in np.asarray(h).tolist()]
         if any(float(c) != int(c) for c in np.asarray(h).tolist()):
-            o['hist'] = [-1]
-        o['edges'] = [V(float(x)) for x in np.asarray(hr[1]).tolist()]
+            o['hist' + sfx] = [-1]
+        o['edges' + sfx] = [V(float(x)) for x in np.asarray(hr[1]).tolist()]
+        handed.extend(a for a in hr if isinstance(a, np.ndarray))
+    try:
+        r = apply_expr(case['expr'], arrays)
+        o = _observe_array(np, r, names, handed)
+        sum_hist(o, r, '')
         s = str(r)
         o['str_lines'] = s.count('\n') + 1
     except Exception as e:
         o = dict(ok=False, err='%s: %s' % (type(e).__name__, str(e)[:100]))
     out['res'] = o
+    # repeated observation of the SAME objects (every leaf once more, the result three more times, through routes and
+    # in-place edits cycled over the cases), everything handed out so far edited in place before each one; then sum and
+    # histogram of the result once more
+    if o.get('ok'):
+        nr, ne = len(REP_ROUTES), len(REP_EDITS)
+        # every route is read at least twice on one object with edits in between (a cache behind track[name] or
+        # track[intervals] only shows when that route is asked again); the result is read A, B, A with the pair (A, B) cycled
+        lroute = [REP_ROUTES[(rep + i) % nr] for i in range(len(arrays))]
+        out['leaf_reps'] = [_rep_round(np, bnp, g, x, names, sizes, lroute[i], REP_EDITS[(rep + i) % ne], handed)
+                            for i, x in enumerate(arrays)]
+        ra, rb = REP_ROUTES[rep % nr], REP_ROUTES[(rep + 1 + (rep // nr) % (nr - 1)) % nr]
+        out['res_reps'] = [_rep_round(np, bnp, g, r, names, sizes, rt, REP_EDITS[(rep // nr + i) % ne], handed)
+                           for i, rt in enumerate([ra, rb, ra])]
+        out['leaf_reps2'] = [_rep_round(np, bnp, g, x, names, sizes, lroute[i], REP_EDITS[(rep + i + 1) % ne], handed)
+                             for i, x in enumerate(arrays)]
+        try:
+            _edit_in_place(np, handed, REP_EDITS[(rep + 2) % ne])
+            sum_hist(o, r, '2')
+        except Exception as e:
+            o['sum2'], o['hist2'], o['edges2'], o['err2'] = [0, 0], [-2], [], '%s: %s' % (type(e).__name__, str(e)[:100])
     return out
 
 
@@ -717,12 +861,18 @@ def to_coq(case, o):
     res = o['res']
     npd = o['np']
     return ('{| k_sizes := %s; k_leaves := %s; k_lobs := %s; k_expr := %s; k_res := %s; k_np_kind := %s; k_np := %s; '
-            'k_sum := %s; k_np_sum := %s; k_edges := %s; k_obs_edges := %s; k_hist := %s; k_np_hist := %s |}' % (
+            'k_sum := %s; k_np_sum := %s; k_edges := %s; k_obs_edges := %s; k_hist := %s; k_np_hist := %s; '
+            'k_lreps := %s; k_lreps2 := %s; k_rreps := %s; k_sum2 := %s; k_obs_edges2 := %s; k_hist2 := %s |}' % (
                 zl(case['sizes']), leaves, clist([cobs(x) for x in o['leaves']], 'obs'), cexpr(case['expr']), cobs(res),
                 ck(npd['kind']), cvl(npd['dense']),
                 cv(res['sum']) if res.get('ok') else '(0, 0)', cv(npd['sum']), cvl(npd['edges']),
                 cvl(res['edges']) if res.get('ok') else '(@nil val)',
-                zl(res['hist']) if res.get('ok') else '(@nil Z)', zl(npd['hist'])))
+                zl(res['hist']) if res.get('ok') else '(@nil Z)', zl(npd['hist']),
+                clist([cobs(x) for x in o.get('leaf_reps', [])], 'obs'), clist([cobs(x) for x in o.get('leaf_reps2', [])], 'obs'),
+                clist([cobs(x) for x in o.get('res_reps', [])], 'obs'),
+                cv(res['sum2']) if res.get('ok') else '(0, 0)',
+                cvl(res['edges2']) if res.get('ok') else '(@nil val)',
+                zl(res['hist2']) if res.get('ok') else '(@nil Z)'))
 
 
 # ----------------------------------------------------------------------------- evidence helpers
@@ -734,7 +884,8 @@ def nontrivial(case, o):
 def describe(case, o):
     return dict(sizes=case['sizes'], leaves=[dict(tag=l['tag'], kind=l['kind'], recs=[[r[0], r[1], r[2], unV(r[3], 'f')] for r in l['recs']])
                                              for l in case['leaves']],
-                expr=case['expr'], result_kind=o['res'].get('kind'), result=o['res'].get('dense'), error=o['res'].get('err'))
+                expr=case['expr'], result_kind=o['res'].get('kind'), result=o['res'].get('dense'), error=o['res'].get('err'),
+                repeats=[(x.get('route'), x.get('edit'), x.get('ok')) for x in o.get('leaf_reps', []) + o.get('res_reps', []) + o.get('leaf_reps2', [])])
 
 
 def shape_class(case, l):
@@ -750,7 +901,7 @@ def shape_class(case, l):
 
 
 def distribution(cases, obs):
-    d = dict(chromosomes={}, leaf_tags={}, bedgraph_kinds={}, bedgraph_shapes={}, interval_features={}, depth={}, operators={}, histogram_call={}, sum_call={}, errors=0)
+    d = dict(chromosomes={}, leaf_tags={}, bedgraph_kinds={}, bedgraph_shapes={}, interval_features={}, repeat_routes={}, depth={}, operators={}, histogram_call={}, sum_call={}, errors=0)
     for c, o in zip(cases, obs):
         k = str(len(c['sizes']))
         d['chromosomes'][k] = d['chromosomes'].get(k, 0) + 1
@@ -771,6 +922,10 @@ def distribution(cases, obs):
         d['depth'][dp] = d['depth'].get(dp, 0) + 1
         for op in expr_ops(c['expr'], set()):
             d['operators'][op] = d['operators'].get(op, 0) + 1
+        if isinstance(o, dict):
+            for x in o.get('leaf_reps', []) + o.get('res_reps', []) + o.get('leaf_reps2', []):
+                k2 = '%s after %s' % (x.get('route'), x.get('edit'))
+                d['repeat_routes'][k2] = d['repeat_routes'].get(k2, 0) + 1
         if isinstance(o, dict) and not o.get('res', {}).get('ok', False):
             d['errors'] += 1
     return d
@@ -833,4 +988,16 @@ def signature(case, o):
         return 'sum'
     if r.get('hist') != o['np']['hist'] or r.get('edges') != o['np']['edges']:
         return 'histogram:' + (case.get('hist') or {}).get('style', 'kw_edges')
+    # repeated observations of the same objects after in-place edits of earlier results
+    for what, reps, firsts in (('leaf', o.get('leaf_reps', []), o['leaves']), ('result', o.get('res_reps', []), [r] * 3),
+                               ('leaf', o.get('leaf_reps2', []), o['leaves'])):
+        for rp, first in zip(reps, firsts):
+            if not rp.get('ok'):
+                return 'repeat-%s-%s-error' % (what, rp.get('route'))
+            if rp.get('kind') != first.get('kind') or rp['dense'] != first['dense']:
+                return 'repeat-%s-%s-dense-after-inplace-edit' % (what, rp.get('route'))
+            if rp['data'] != first['data']:
+                return 'repeat-%s-%s-get_data-after-inplace-edit' % (what, rp.get('route'))
+    if r.get('sum2') != r.get('sum') or r.get('hist2') != r.get('hist') or r.get('edges2') != r.get('edges'):
+        return 'repeat-sum-histogram-after-inplace-edit'
     return 'get_data'
